@@ -26,6 +26,11 @@
 
 #include "ares_private.h"
 
+#ifdef CARES_VERIF
+/* Verification hook: when set, ares_tvnow() is served by this function. */
+void (*ares_verif_tvnow)(ares_timeval_t *now) = NULL;
+#endif
+
 #if defined(_WIN32) && !defined(MSDOS)
 
 void ares_tvnow(ares_timeval_t *now)
@@ -60,6 +65,13 @@ void ares_tvnow(ares_timeval_t *now)
    * in any case the time starting point does not change once that the
    * system has started up. */
   struct timespec tsnow;
+
+#ifdef CARES_VERIF
+  if (ares_verif_tvnow != NULL) {
+    ares_verif_tvnow(now);
+    return;
+  }
+#endif
 
   if (clock_gettime(CLOCK_MONOTONIC, &tsnow) == 0) {
     now->sec  = (ares_int64_t)tsnow.tv_sec;
